@@ -17,16 +17,27 @@ def snapshot(vm, out, diags, warn_delta):
     return (w_vm(vm, out, diags).replace(" " + proto.w_settings(vm.settings) + " ", " S "), warn_delta)
 
 
-def run_on(vm, prog):
+def run_on(vm, prog, limit=20):
+    """one real `vm.run(prog)`; every program that gets here ends within 2500 instructions by the step-by-step reference,
+    so a run that has not returned after `limit` seconds is reported as such (never waited for)"""
+    import signal
+    from .dbg import Hang, _alarm
     before = vm.settings.warning_count
     exc = None
     with proto.Capture() as cap:
+        old = signal.signal(signal.SIGALRM, _alarm)
+        signal.setitimer(signal.ITIMER_REAL, limit)
         try:
             vm.run(prog)
+        except Hang:
+            exc = "Hang"
         except SystemExit:
             exc = "SystemExit"
         except Exception as e:  # noqa
             exc = type(e).__name__
+        finally:
+            signal.setitimer(signal.ITIMER_REAL, 0)
+            signal.signal(signal.SIGALRM, old)
         out, errs = cap.take()
     diags = proto.diags_of(errs)
     _LAST["line"] = w_vm(vm, out, diags)
@@ -70,12 +81,41 @@ def check(seed, n, thorough):
         if mon["problem"] or not mon["ended"]:
             continue
         progs.append((text, prog, mon["steps"]))
+    # runs that end by leaving the program at its front: a taken relative branch whose literal offset overshoots
+    # instruction 0 by 1 .. (length of the program) and beyond, with instructions after it that must not be executed
+    n_generated = len(progs)
+    for before in range(0, 4):
+        for over in (1, 2, 3, 4, 5, 6, 9):
+            lines = ["SETLO(R{}, {})".format(1 + j, 1 + j) for j in range(before)] + ["SETLO(R7, 1)", "BNZR({})".format(-(before + 1 + over)),
+                                                                                   "SETLO(R2, 7)", "print_reg(R2)", "FON(2)"]
+            text = "\n".join(lines) + "\n"
+            prog, out, errs, exc = progrun.load(text, progrun.make_settings())
+            if prog is None:
+                continue
+            mon = progrun.monitor_run(prog, progrun.make_settings(), 2500)
+            if mon["problem"] or not mon["ended"]:
+                continue
+            progs.append((text, prog, mon["steps"]))
     reqs, metas = [], []
     for i, (text, prog, steps) in enumerate(progs):
         case = {"text": text}
         proto.sample("isolation", {"text": text[:400], "steps": steps})
         # repeatability and isolation
         fresh, e0 = run_on(V.VirtualMachine(progrun.make_settings()), prog)
+        # the unthrottled run against the step-by-step reference (its own loop: stop when halted or pc outside 0..len-1)
+        mon0 = progrun.monitor_run(prog, progrun.make_settings(), steps + 5)
+        evals += 1
+        if e0 == "Hang":
+            violations.append({"property": "C15", "stream": "isolation", "sig": "unthrottled-hang", "case": {"text": text, "unthrottled": True},
+                               "what": "the unthrottled run does not return although executing the program instruction by instruction "
+                                       "ends after {} instructions".format(steps)})
+            continue
+        if mon0["ended"] and not mon0["problem"]:
+            exp0 = snapshot(mon0["vm"], mon0["stdout"], mon0["diags"], mon0["vm"].settings.warning_count)
+            if fresh != exp0:
+                violations.append({"property": "C15", "stream": "isolation", "sig": "unthrottled", "case": {"text": text, "unthrottled": True},
+                                   "what": "the unthrottled run of a {}-instruction run does not end in the state that executing the "
+                                           "program instruction by instruction (until it halts or pc leaves the program) ends in".format(steps)})
         vm = V.VirtualMachine(progrun.make_settings())
         a, e1 = run_on(vm, prog)
         b, e2 = run_on(vm, prog)
@@ -154,7 +194,7 @@ def check(seed, n, thorough):
             diff = {k: (b.get(k), a.get(k)) for k in a if a.get(k) != b.get(k)}
             violations.append({"property": "C15", "stream": "isolation", "sig": "default-arg:" + name, "case": {"function": name},
                                "what": "shared default Settings() of {} changed during runs: {}".format(name, diff)})
-    fr = check_files(seed + 5, 200 if thorough else 24, [t for t, _p, _s in progs])
+    fr = check_files(seed + 5, 200 if thorough else 24, [t for t, _p, _s in progs[:n_generated]])
     evals += fr["evaluations"]
     violations += fr["violations"]
     return {"evaluations": evals, "violations": violations, "disagreements": disagreements, "programs": len(progs),
@@ -166,17 +206,28 @@ def check(seed, n, thorough):
 # ---------------------------------------------------------------------------------------------------------
 # process level: `main` called several times in one process on files whose content changes between the calls
 
-def main_on(path, root, extra=()):
+def main_on(path, root, extra=(), limit=10):
+    import signal
     import hera.main as M
+    from .dbg import Hang, _alarm
     with proto.Capture() as cap:
         code = 0
+        old = signal.signal(signal.SIGALRM, _alarm)
+        signal.setitimer(signal.ITIMER_REAL, limit)
         try:
             M.main(["--no-color"] + list(extra) + [path])
+        except Hang:
+            code = "does not return"
         except SystemExit as e:
             code = e.code or 0
         except BaseException as e:  # noqa
             code = "raised " + type(e).__name__
+        finally:
+            signal.setitimer(signal.ITIMER_REAL, 0)
+            signal.signal(signal.SIGALRM, old)
         out, errs = cap.take()
+    if code == "does not return":
+        return (code, "", "")
     return (code, out.replace(root, "<D>"), "\n".join(errs).replace(root, "<D>"))
 
 
@@ -203,6 +254,8 @@ def file_sequence_problem(steps):
             fresh = os.path.join(top, "fresh{}".format(i))
             write_files(fresh, current)
             want = main_on(os.path.join(fresh, "main.hera"), fresh)
+            if want[0] == "does not return":
+                return None          # the files themselves make a program that loops: no verdict from this sequence
             if got != want:
                 part = ["exit status", "standard output", "standard error"][[a != b for a, b in zip(got, want)].index(True)]
                 return ("run #{} of main.hera in one process, after {} changed on disk, differs from the run of the same files "
@@ -258,7 +311,16 @@ def replay_case(case):
         other = progrun.load(case["before"], progrun.make_settings())[0]
     t = case.get("throttle")
     mk = (lambda: progrun.make_settings(throttle=t)) if t is not None else progrun.make_settings
-    fresh, _ = run_on(V.VirtualMachine(mk()), prog)
+    fresh, e0 = run_on(V.VirtualMachine(mk()), prog)
+    if case.get("unthrottled") and e0 == "Hang":
+        return "the unthrottled run does not return"
+    if case.get("unthrottled"):
+        mon0 = progrun.monitor_run(prog, progrun.make_settings(), 100000)
+        if mon0["ended"] and not mon0["problem"]:
+            exp0 = snapshot(mon0["vm"], mon0["stdout"], mon0["diags"], mon0["vm"].settings.warning_count)
+            if fresh != exp0:
+                return "the unthrottled run differs from executing the program instruction by instruction"
+        return None
     vm = V.VirtualMachine(mk())
     if other is not None:
         run_on(vm, other)
